@@ -599,6 +599,13 @@ pub fn history(backend: Backend, seed: u64, idx: u64) -> Case {
                                 }
                             }
                         }
+                        (AnyConn::Diesel(_), _) if diesel_method == 4 && rng.chance(1, 2) => {
+                            // only the scripted check function knows that this connection is bad
+                            let _ = bad_fn.lock().unwrap().insert(m);
+                            let _ = bad.insert(m);
+                            log.push(format!("#{}: the custom check function will report it (nothing else is wrong with it)", m));
+                            *counters.entry("diesel_bad_by_custom_function_only".into()).or_insert(0) += 1;
+                        }
                         (AnyConn::Diesel(c), _) => {
                             if !bad.contains(&m) {
                                 let r = guarded(c.interact(|c| {
